@@ -2,6 +2,7 @@ package rules
 
 import (
 	"fmt"
+	"sort"
 	"strings"
 
 	"golang.org/x/tools/go/ssa"
@@ -35,7 +36,7 @@ func init() {
 	register(&Property{
 		Meta: report.Meta{
 			Property:    "C04",
-			Explanation: "Decision tables read off the CFG of both IsValidAt methods (every combination of bound present/absent and probe before/after), of verifyTimeBoundAt (invocation and every delegation of a full-range loop must be valid at the probe instant), of verifyTimeBound / IsValidNow (probe = time.Now()), and of parse.OptionalTimestamp (nil -> nil; value = time.Unix(sec,0); int53 bounds). Field/method pairing (expiration<->After, notBefore<->Before) and receiver/argument roles are part of the atoms. (R5) every exported option constructor: the function it returns, enumerated in the context of its creator, stores into *time.Time fields only cells allocated during the application, cells of the creator that no application writes (idempotent time.Round / Truncate / UTC of the cell's own value excepted), nil, or the caller's pointer.",
+			Explanation: "Decision tables read off the CFG of both IsValidAt methods (every combination of bound present/absent and probe before/after), of verifyTimeBoundAt (invocation and every delegation of a full-range loop must be valid at the probe instant), of verifyTimeBound / IsValidNow (probe = time.Now()), and of parse.OptionalTimestamp (nil -> nil; value = time.Unix(sec,0); int53 bounds). Field/method pairing (expiration<->After, notBefore<->Before) and receiver/argument roles are part of the atoms. (R5) every exported option constructor: the function it returns, enumerated in the context of its creator, stores into *time.Time fields only cells allocated during the application, cells of the creator that no application writes (idempotent time.Round / Truncate / UTC of the cell's own value excepted), nil, or the caller's pointer. When the returned function ends in the application of another exported time option to the token, the single argument of that option must satisfy the same condition on the instant.",
 			Assumptions: []string{"time.Time.After/Before/Unix semantics", "go/ssa faithfully represents the source"},
 			Trusted:     []string{"golang.org/x/tools/go/ssa v0.29.0", "package time"},
 			NotDecided:  []string{"behaviour exactly at a bound (left open by the property)", "time package semantics"},
@@ -563,6 +564,41 @@ func runC04(x *Ctx) {
 			ps := x.paths("C04.R3", f)
 			want := "call[" + recv + "IsValidAt](recv,call[time.Now]())"
 			ok := len(ps) == 1 && ps[0].End == paths.EndReturn && ps[0].Results()[0].String() == want
+			if !ok {
+				// written out instead of calling IsValidAt: the same decision table as IsValidAt with the probe
+				// replaced by time.Now()
+				table := func(qs []*paths.Path, probe string) (map[string]bool, bool) {
+					out := map[string]bool{}
+					for _, q := range qs {
+						if q.End != paths.EndReturn || len(q.Results()) != 1 {
+							return nil, false
+						}
+						var fs []string
+						for _, fc := range q.Facts {
+							fs = append(fs, fmt.Sprintf("%v:%s", fc.Pol, fc.Atom))
+						}
+						sort.Strings(fs)
+						row := strings.Join(fs, " & ") + " => " + q.Results()[0].String()
+						if probe != "" {
+							row = strings.ReplaceAll(row, probe, "call[time.Now]()")
+						}
+						out[row] = true
+					}
+					return out, len(out) > 0
+				}
+				if at := x.P.Func(recv + "IsValidAt"); at != nil {
+					tn, ok1 := table(ps, "")
+					ta, ok2 := table(x.pathsQuiet(at), "arg0")
+					if ok1 && ok2 && len(tn) == len(ta) {
+						ok = true
+						for r := range tn {
+							if !ta[r] {
+								ok = false
+							}
+						}
+					}
+				}
+			}
 			x.C.Obl("C04.R3", "now:"+recv+"IsValidNow", x.pos(f), "IsValidNow returns IsValidAt(time.Now())", ok, fmt.Sprintf("%d paths", len(ps)))
 		}
 	}
